@@ -36,6 +36,7 @@ pub const SUBS: &[SubDef] = &[
     SubDef { prop: "C07", name: "refusals", oracle: refusals },
     SubDef { prop: "C07", name: "history", oracle: history },
     SubDef { prop: "C07", name: "cap", oracle: cap },
+    SubDef { prop: "C07", name: "oversize_first", oracle: oversize_first },
 ];
 
 fn run(ctx: &Ctx) {
@@ -43,6 +44,7 @@ fn run(ctx: &Ctx) {
     ctx.run_tape("refusals", refusals, ctx.pick(12_000, 200_000), 600);
     ctx.run_tape("history", history, ctx.pick(18_000, 300_000), if ctx.tier == Tier::Quick { 1200 } else { 3000 });
     ctx.run_tape("cap", cap, ctx.pick(12, 120), 64);
+    ctx.run_tape("oversize_first", oversize_first, ctx.pick(8, 48), 64);
 }
 
 pub const MAX_DATA: usize = 10 * 1024 * 1024;
@@ -106,6 +108,8 @@ pub struct Model {
     pub cur: Option<u8>,
     /// set when the last answer came from a path the statement does not fix
     pub unspecified: bool,
+    /// a hand-built record longer than the record-length cap has been fed (the "buffer never reaches 10 MiB" clause is about records within the cap)
+    pub beyond_cap: bool,
     /// which rule produced the last answer
     pub path: &'static str,
 }
@@ -131,6 +135,9 @@ impl Model {
     }
     pub fn parse(&mut self, r: &Rec) -> Sum {
         self.unspecified = false;
+        if r.data.len() > 16640 {
+            self.beyond_cap = true;
+        }
         match self.cur {
             None => {
                 if r.ctype == 0x15 || r.ctype == 0x14 {
@@ -226,7 +233,7 @@ fn step(p: &mut TlsRecordsParser, m: &mut Model, op: &Op, trace: &str) -> Result
         m.buf = p.verif_defrag_buffer().to_vec();
     }
     ensure!(p.defrag_in_progress() == m.cur.is_some(), format!("C07:{}:in-progress-flag", kind), "{} after [{}]: defrag_in_progress() is {}, expected {}", what, trace, p.defrag_in_progress(), m.cur.is_some());
-    ensure!(p.verif_defrag_buffer().len() < MAX_DATA, "C07:buffer-reached-10MiB", "{}: the buffer holds {} bytes (>= 10 MiB)", what, p.verif_defrag_buffer().len());
+    ensure!(m.beyond_cap || p.verif_defrag_buffer().len() < MAX_DATA, "C07:buffer-reached-10MiB", "{}: the buffer holds {} bytes (>= 10 MiB)", what, p.verif_defrag_buffer().len());
     if m.cur.is_some() {
         ensure!(p.verif_current_type().map(|t| t.0) == m.cur, format!("C07:{}:current-type", kind), "{}: current type {:?}, expected {:?}", what, p.verif_current_type(), m.cur);
         ensure!(p.verif_defrag_buffer() == m.buf.as_slice(), format!("C07:{}:buffer-content", kind), "{} after [{}]: the defragmentation buffer holds {} bytes {}, the fragments received so far are {} bytes {}", what, trace, p.verif_defrag_buffer().len(), hex_short(p.verif_defrag_buffer()), m.buf.len(), hex_short(&m.buf));
@@ -284,7 +291,16 @@ fn splits(t: &mut Tape, obs: &mut Obs) -> R {
     }
     let k = 1 + t.below(8);
     let cuts = gen_cuts(t, first, k);
-    let frags = fragments(&payload, &cuts);
+    let mut frags = fragments(&payload, &cuts);
+    // a run of empty fragments somewhere before the last one ("cut points anywhere ... empty fragments": any number of them)
+    if frags.len() >= 2 && t.chance(50) {
+        let run = t.pick(&[2usize, 5, 31, 32, 33, 34, 64, 100, 255, 256, 257, 1000]);
+        let at = t.below(frags.len());
+        for _ in 0..run {
+            frags.insert(at, Vec::new());
+        }
+        obs.class("run-of-empty-fragments");
+    }
     let version = gen_version(t);
     let mut p = TlsRecordsParser::default();
     if t.chance(40) {
@@ -295,7 +311,7 @@ fn splits(t: &mut Tape, obs: &mut Obs) -> R {
         obs.class("reused-parser");
     }
     let label = format!("{}:k={}", if ctype == 0x16 { "handshake" } else { "heartbeat" }, frags.len());
-    let descr = frags.iter().map(|f| f.len().to_string()).collect::<Vec<_>>().join("+");
+    let descr = if frags.len() > 24 { format!("{} fragments, {} of them empty", frags.len(), frags.iter().filter(|f| f.is_empty()).count()) } else { frags.iter().map(|f| f.len().to_string()).collect::<Vec<_>>().join("+") };
     obs.sample_class(&label, || json!({"content_type": ctype, "fragments": descr, "first_message_bytes": first, "messages": msgs.len()}));
     if frags.len() >= 2 {
         obs.nontrivial(fnv64(format!("{:?}{:?}", cuts, payload).as_bytes()));
@@ -480,6 +496,37 @@ fn history(t: &mut Tape, obs: &mut Obs) -> R {
         obs.nontrivial(fnv64(trace.as_bytes()) ^ ops.len() as u64);
         obs.sample(json!({"ops": ops.len(), "calls_while_defragmenting": in_progress_calls, "history": trunc(&trace)}));
     }
+    Ok(())
+}
+
+/// a hand-built FIRST fragment at or beyond the limit (stored without a size check), then continuation fragments: each of them is refused
+/// with TooLarge and changes nothing, foreign types are still refused for their type, reset() recovers
+fn oversize_first(t: &mut Tape, obs: &mut Obs) -> R {
+    let n = t.pick(&[MAX_DATA - 1, MAX_DATA, MAX_DATA + 1, MAX_DATA + 16, MAX_DATA + 16640, MAX_DATA + (1 << 20)]);
+    let mut data = vec![0u8; n];
+    data[..4].copy_from_slice(&[1, 0xff, 0xff, 0xff]);
+    let mut p = TlsRecordsParser::default();
+    let mut m = Model::default();
+    let got = step(&mut p, &mut m, &Op::Parse(Rec::new(0x16, 0x0303, data)), "oversize first fragment")?;
+    ensure!(matches!(got, Sum::Incomplete(_)), "C07:oversize-first:not-incomplete", "a {}-byte first fragment of an incomplete message answered {}", n, show_sum(&got));
+    for k in 0..1 + t.below(4) {
+        let sz = t.pick(&[0usize, 1, 2, 16384, 16640]);
+        let got = step(&mut p, &mut m, &Op::Parse(Rec::new(0x16, 0x0303, vec![0xaa; sz])), "after an oversize first fragment")?;
+        let want_refusal = n.saturating_add(sz) >= MAX_DATA;
+        if want_refusal {
+            ensure!(got == Sum::Error(ErrorKind::TooLarge), "C07:oversize-first:not-refused", "buffer {} bytes + fragment {} bytes (call {}): must be refused with TooLarge, got {}", n, sz, k + 2, show_sum(&got));
+        }
+        if t.chance(60) {
+            let got = step(&mut p, &mut m, &Op::Parse(Rec::new(0x17, 0x0303, vec![1, 2, 3])), "foreign type after an oversize first fragment")?;
+            ensure!(got == Sum::Error(ErrorKind::Tag), "C07:oversize-first:foreign-not-tag", "a foreign record must be refused with Tag, got {}", show_sum(&got));
+        }
+    }
+    step(&mut p, &mut m, &Op::Reset, "reset")?;
+    let hd = MHs::ServerDone(vec![]).to_bytes();
+    let got = step(&mut p, &mut m, &Op::Parse(Rec::new(0x16, 0x0303, hd)), "after reset")?;
+    ensure!(matches!(got, Sum::Ok { .. }), "C07:oversize-first:after-reset", "after reset() a complete record answered {}", show_sum(&got));
+    obs.nontrivial(n as u64);
+    obs.sample(json!({"first_fragment_bytes": n}));
     Ok(())
 }
 
